@@ -16,8 +16,13 @@ static pop ALPHA[32]; static int NALPHA;
 
 /* storage plan */
 static int st_read_ret, st_write_ret; static uint8_t st_mem[64]; static int st_reads, st_writes;
-static int st_read(const ascon_storage_t *s, size_t off, unsigned char *d, size_t n) { (void)s; (void)off; st_reads++; if (st_read_ret > 0) memcpy(d, st_mem, (size_t)st_read_ret < n ? (size_t)st_read_ret : n); return st_read_ret; }
-static int st_write(const ascon_storage_t *s, size_t off, const unsigned char *d, size_t n, int erase) { (void)s; (void)off; (void)erase; st_writes++; if (st_write_ret > 0 && d) memcpy(st_mem, d, (size_t)st_write_ret < n ? (size_t)st_write_ret : n); return st_write_ret; }
+/* the driver behaves like a real one: it transfers exactly the number of bytes it is asked to (so a request larger than the library's 32-byte seed buffer is an
+ * out-of-bounds access the sanitizer builds of C12 see), and it records requests outside the documented seed range (32 bytes at offset 0) */
+static int st_geom, st_range_bad; static uint8_t st_big[8192];
+static int st_read(const ascon_storage_t *s, size_t off, unsigned char *d, size_t n)
+{ (void)s; st_reads++; if (off != 0 || n != 32) st_range_bad = 1; if (st_read_ret > 0) { size_t k = (size_t)st_read_ret < n ? (size_t)st_read_ret : n; memcpy(d, st_mem, k < 64 ? k : 64); } return st_read_ret; }
+static int st_write(const ascon_storage_t *s, size_t off, const unsigned char *d, size_t n, int erase)
+{ (void)s; (void)erase; st_writes++; if (off != 0 || n != 32) st_range_bad = 1; if (d && n <= sizeof st_big) memcpy(st_big, d, n); if (st_write_ret > 0 && d) memcpy(st_mem, st_big, (size_t)st_write_ret < 64 ? (size_t)st_write_ret : 64); return st_write_ret; }
 
 typedef struct {
     int status[8]; unsigned calls_before[8], calls_after[8];
@@ -34,7 +39,9 @@ static void run_history(const pop *h, int hl, uint64_t entropy_fail_mask, int st
 {
     ascon_random_state_t rs; ascon_storage_t stg;
     memset(t, 0, sizeof *t); memset(&stg, 0, sizeof stg);
-    stg.page_size = 1; stg.size = (size_t)storage_size; stg.read = st_read; stg.write = st_write;
+    /* storage geometries: byte-writable EEPROM, 32-byte pages, flash with 64-byte and 256-byte pages and erase blocks */
+    { static const size_t pg[] = {1, 32, 64, 256}, er[] = {0, 0, 64, 4096}; stg.page_size = pg[st_geom & 3]; stg.erase_size = er[st_geom & 3]; stg.partial_writes = (st_geom >> 1) & 1; }
+    stg.size = (size_t)storage_size; stg.read = st_read; stg.write = st_write; st_range_bad = 0;
     sysrand_fail_mask = entropy_fail_mask;
     for (int i = 0; i < 32; i++) st_mem[i] = (uint8_t)(0xC0 + i);
     t->init_status = ascon_random_init(&rs);
@@ -75,6 +82,7 @@ static void judge(const pop *h, int hl, uint64_t fmask, int stsize, int rret, in
     sysrand_reset(hx_seed); st_reads = st_writes = 0; memset(bigbuf, 0xC5, 16385 + 64); run_history(h, hl, fmask, stsize, &t1);
     sysrand_reset(hx_seed); st_reads = st_writes = 0; memset(bigbuf, 0xC5, 16385 + 64); run_history(h, hl, fmask, stsize, &t2);
     nruns += 2; hstr(h, hl, hs, sizeof hs);
+    if (st_range_bad) hx_fail("prng:storage-range", "a storage callback was asked for bytes outside the documented seed range (32 bytes at offset 0), storage geometry %d: history [%s] plan %s", st_geom & 3, hs, plan);
     /* determinism */
     if (memcmp(&t1, &t2, sizeof t1)) hx_fail("prng:determinism", "two runs with the same system bytes and fed data differ: history [%s] plan %s", hs, plan);
     /* status of init: non-zero iff call 0 succeeded */
@@ -189,6 +197,7 @@ static void rec(pop *h, int n)
         unsigned ncalls = sysrand_calls; if (ncalls > 6) ncalls = 6;
         for (uint64_t m = 1; m < ((uint64_t)1 << ncalls); m++) { char p[32]; snprintf(p, sizeof p, "entropy-fail-mask=%llx", (unsigned long long)m); judge(h, n, m, 32, 32, 32, p); }
         if (hasst) {
+            for (st_geom = 1; st_geom < 4; st_geom++) { char p[32]; snprintf(p, sizeof p, "storage-geometry=%d", st_geom); judge(h, n, 0, st_geom == 3 ? 4096 : 64, 32, 32, p); } st_geom = 0;
             static const int rets[] = {-1, 0, 31, 33};
             for (int r = 0; r < 4; r++) { char p[48]; snprintf(p, sizeof p, "storage-read-returns=%d", rets[r]); judge(h, n, 0, 32, rets[r], 32, p); snprintf(p, sizeof p, "storage-write-returns=%d", rets[r]); judge(h, n, 0, 32, 32, rets[r], p); }
             judge(h, n, 0, 31, 32, 32, "storage-size=31");
